@@ -11,7 +11,9 @@ package main
 //   docgen.CreateDoc(env).Variables lists exactly the accepted top-level names (+ operators, builtins).
 
 import (
+	"encoding/json"
 	"fmt"
+	"math/rand"
 	"os"
 	"os/exec"
 	"reflect"
@@ -30,6 +32,7 @@ import (
 func init() {
 	props["C16"] = runC16
 	props["C16-cyclic-probe"] = func(c *Ctx) { c16CyclicProbe() }
+	props["C16-history-probe"] = func(c *Ctx) { c16HistoryProbe() }
 }
 
 var keyedCount = map[string]int{}
@@ -84,6 +87,227 @@ func c16CyclicEmbedding(c *Ctx) {
 			Key: "c16:cyclic-pointer-embedding-stack-overflow", Input: c16Input{"ZCyc", "main.ZCyc (struct { Name string; *ZCyc })", "Name", "Name"},
 			Expect: "Compile returns (Name resolves to the field at depth 0)", Got: msg})
 	}
+}
+
+// ---- history independence
+//
+// conf.CreateTypesTable, docgen.CreateDoc and Compile must be functions of their argument, not of what the
+// process did before.  For every struct type of the zoo, used by value (T) and by pointer (*T), a child
+// process works through the four steps  a b a b  with (a, b) = (T, *T) in one child and (*T, T) in the
+// other, and prints for each step: the types table, docgen's variables, and for every member name the
+// verdict of Compile and of Run (on a populated value of THAT kind) for `name` and `name(args)`.
+// The parent requires every step of a kind to print what the FIRST step of the child that starts with
+// that kind printed (a fresh state), ties each table to the Lean model (which has no state), and applies
+// the property's oracle to every step: accepted  =>  Run succeeds.
+
+type c16HistStep struct {
+	Env    string            `json:"env"`  // shape name, "*" prefix for the pointer kind
+	Step   int               `json:"step"` // 0..3
+	Table  string            `json:"table"`
+	Doc    string            `json:"doc"`
+	Probes map[string]string `json:"probes"` // expression -> verdict
+	Bad    []string          `json:"bad"`    // accepted but not resolvable: "expr: run error"
+}
+
+func c16HistoryEnvs() []interface{} {
+	shapes := zooShapes()
+	rng := rand.New(rand.NewSource(16))
+	for i := 0; i < 12; i++ {
+		shapes = append(shapes, reflect.Zero(randomStructType(rng, 3)).Interface())
+	}
+	return shapes
+}
+
+func c16HistVerdict(rv realVerdict) string {
+	switch {
+	case !rv.accepted:
+		return "rejected: " + rv.cerr
+	case !rv.ran:
+		return "accepted " + rv.ty.String() + ", run fails: " + rv.rerr
+	}
+	return "accepted " + fmt.Sprint(rv.ty) + ", runs"
+}
+
+func c16HistoryStep(name string, step int, env interface{}) c16HistStep {
+	st := c16HistStep{Env: name, Step: step, Probes: map[string]string{}}
+	func() {
+		defer func() {
+			if r := recover(); r != nil {
+				st.Table = fmt.Sprintf("PANIC %v", r)
+			}
+		}()
+		st.Table = realTableCanon(conf.CreateTypesTable(env))
+	}()
+	func() {
+		defer func() {
+			if r := recover(); r != nil {
+				st.Doc = fmt.Sprintf("PANIC %v", r)
+			}
+		}()
+		doc := docgen.CreateDoc(env)
+		var vs []string
+		for id, v := range doc.Variables {
+			vs = append(vs, string(id)+":"+string(v.Kind))
+		}
+		sort.Strings(vs)
+		st.Doc = strings.Join(vs, " ")
+	}()
+	set := map[string]bool{"Nope": true}
+	t := reflect.TypeOf(env)
+	collectNames(t, set, 0)
+	if t.Kind() != reflect.Ptr {
+		collectNames(reflect.PtrTo(t), set, 0) // the pointer-receiver methods too
+	}
+	for _, n := range sortedKeys(set) {
+		if !validIdent(n) {
+			continue
+		}
+		rv := compileRun16(n, env)
+		st.Probes[n] = c16HistVerdict(rv)
+		if rv.accepted && !rv.ran {
+			st.Bad = append(st.Bad, n+": "+rv.rerr)
+		}
+		src, cv := tryCalls(n, env, "unknown func")
+		st.Probes[src] = c16HistVerdict(cv)
+		if cv.accepted && !cv.ran && !strings.Contains(cv.rerr, "PANIC") {
+			st.Bad = append(st.Bad, src+": "+cv.rerr)
+		}
+	}
+	return st
+}
+
+// c16HistoryProbe (child process): VERIF_C16_ORDER = "vp" (value first) or "pv" (pointer first)
+func c16HistoryProbe() {
+	ptrFirst := os.Getenv("VERIF_C16_ORDER") == "pv"
+	enc := json.NewEncoder(os.Stdout)
+	for _, s := range c16HistoryEnvs() {
+		n := reflect.TypeOf(s).Name()
+		if n == "" {
+			n = reflect.TypeOf(s).String()
+		}
+		for step := 0; step < 4; step++ {
+			usePtr := (step%2 == 1) != ptrFirst
+			// a freshly populated value each time: only the library may carry state over
+			if usePtr {
+				enc.Encode(c16HistoryStep("*"+n, step, popPtr(s)))
+			} else {
+				enc.Encode(c16HistoryStep(n, step, popIface(s)))
+			}
+		}
+	}
+	os.Exit(0)
+}
+
+func c16History(c *Ctx) {
+	run := func(order string) ([]c16HistStep, error) {
+		cmd := exec.Command(os.Args[0], "C16-history-probe")
+		cmd.Env = append(os.Environ(), "VERIF_C16_ORDER="+order)
+		var stderr strings.Builder
+		cmd.Stderr = &stderr
+		out, err := cmd.Output()
+		if err != nil {
+			return nil, fmt.Errorf("%v: %s", err, firstLine16(stderr.String()))
+		}
+		var steps []c16HistStep
+		dec := json.NewDecoder(strings.NewReader(string(out)))
+		for dec.More() {
+			var st c16HistStep
+			if err := dec.Decode(&st); err != nil {
+				return nil, err
+			}
+			steps = append(steps, st)
+		}
+		return steps, nil
+	}
+	vp, err1 := run("vp")
+	pv, err2 := run("pv")
+	if err1 != nil || err2 != nil {
+		c.R.Mismatch("c16/history-child", "child process", "", fmt.Sprint(err1, " ", err2))
+		return
+	}
+	// the fresh results: step 0 of the child that starts with that kind
+	fresh := map[string]c16HistStep{}
+	for _, st := range vp {
+		if st.Step == 0 {
+			fresh[st.Env] = st
+		}
+	}
+	for _, st := range pv {
+		if st.Step == 0 {
+			fresh[st.Env] = st
+		}
+	}
+	// the model's tables
+	var reqs []string
+	var envNames []string
+	for _, s := range c16HistoryEnvs() {
+		n := reflect.TypeOf(s).Name()
+		if n == "" {
+			n = reflect.TypeOf(s).String()
+		}
+		envNames = append(envNames, n, "*"+n)
+		reqs = append(reqs, L(A("c16-table"), A(c16Model()), envSx(popIface(s))).String())
+		reqs = append(reqs, L(A("c16-table"), A(c16Model()), envSx(popPtr(s))).String())
+	}
+	resp, err := c.AskAll(reqs)
+	if err != nil {
+		c.R.Mismatch("driver", "c16-table (history)", err.Error(), "")
+		return
+	}
+	model := map[string]string{}
+	for i, n := range envNames {
+		model[n] = modelTableCanon(resp[i])
+	}
+	diffKeys := func(a, b map[string]string) string {
+		var ks []string
+		for k, v := range a {
+			if b[k] != v {
+				ks = append(ks, fmt.Sprintf("%s: %q vs %q", k, v, b[k]))
+			}
+		}
+		sort.Strings(ks)
+		if len(ks) > 3 {
+			ks = ks[:3]
+		}
+		return strings.Join(ks, "; ")
+	}
+	for oi, steps := range [][]c16HistStep{vp, pv} {
+		order := []string{"value-then-pointer", "pointer-then-value"}[oi]
+		for _, st := range steps {
+			c.R.Case("history|"+order+"|"+st.Env+"|"+fmt.Sprint(st.Step), true)
+			c.R.Count("history:steps", 1)
+			in := c16Input{st.Env, st.Env, fmt.Sprintf("%s, step %d", order, st.Step), ""}
+			f := fresh[st.Env]
+			if st.Table != model[st.Env] {
+				c.R.Mismatch("c16/table-history", st.Env+" "+order+" step "+fmt.Sprint(st.Step), model[st.Env], st.Table)
+			}
+			if st.Table != f.Table {
+				violateKeyed16(c, Violation{What: "conf.CreateTypesTable depends on the calls made before (the table of an environment differs from the one a fresh process builds)",
+					Key: "c16:history-dependent:types-table", Input: in, Expect: f.Table, Got: st.Table})
+			}
+			if st.Doc != f.Doc {
+				violateKeyed16(c, Violation{What: "docgen.CreateDoc depends on the calls made before", Key: "c16:history-dependent:docgen", Input: in, Expect: f.Doc, Got: st.Doc})
+			}
+			if d := diffKeys(st.Probes, f.Probes); d != "" {
+				violateKeyed16(c, Violation{What: "the verdict of Compile / Run on a member depends on the calls made before", Key: "c16:history-dependent:compile", Input: in,
+					Expect: "the verdicts of a fresh process", Got: d})
+			}
+			for _, b := range st.Bad {
+				if !c16KnownUnresolvable(b) {
+					violateKeyed16(c, Violation{What: "a name accepted by Compile is not resolvable at run time on a populated value of that environment kind", Key: "c16:history-dependent:accepted-not-resolvable",
+						Input: in, Expect: "Run succeeds", Got: b})
+				}
+			}
+		}
+	}
+	if c.R.Counters["history:steps"] < 100 {
+		c.R.Mismatch("generator", "history:steps", "", "too few history steps")
+	}
+}
+
+// c16KnownUnresolvable: run failures that are not resolution failures (the call itself fails)
+func c16KnownUnresolvable(b string) bool {
+	return !(strings.Contains(b, "cannot get") || strings.Contains(b, "cannot fetch") || strings.Contains(b, "cannot call") || strings.Contains(b, "undefined"))
 }
 
 var exprReserved = map[string]bool{
@@ -405,6 +629,9 @@ func runC16(c *Ctx) {
 		nRandom = 1500
 	}
 	envs := zooEnvs(c.Rng, nRandom)
+
+	// ---------------------------------------------------------------- 0. history independence (child processes)
+	c16History(c)
 
 	// ---------------------------------------------------------------- 1. tables, method sets, FieldByName
 	var reqs []string
@@ -1189,7 +1416,8 @@ func c16Member(c *Ctx, e zooEnv, path string, rt reflect.Type, name string, row 
 			violateKeyed16(c, Violation{What: "the call's result does not have the type the checker assumed", Key: "c16:membercall-type-differs", Input: cin,
 				Expect: "value of type " + fmt.Sprint(cv.ty), Got: fmt.Sprintf("%T", cv.out)})
 		}
-	} else if base.Kind() == reflect.Struct && callable && (methodFound || (fieldFound && exported)) {
+	} else if (base.Kind() == reflect.Struct || (base.Kind() == reflect.Interface && methodFound)) && callable && (methodFound || (fieldFound && exported)) {
+		// (a method of an interface-typed receiver is statically known too: it has no receiver parameter)
 		violateKeyed16(c, Violation{What: "callable exported member that Go resolves is rejected by the checker", Key: "c16:resolvable-method-rejected", Input: cin, Expect: "accepted", Got: cv.cerr})
 	}
 }
